@@ -53,8 +53,8 @@ theorem select_star_rows (f : Expr) (store : Storage.Store) (hs : store.Sorted)
   Select.select_star_rows f store hs hev kind bs hbs
 
 /-- (4) **C01.**  `P` the parsed WHERE, `f` the folded WHERE the plan is built from
-    (`hfold`: wherever `P` evaluates, `f` evaluates to the same value — the obligation of the
-    constant-folding theorem, C04).  If `P` is in the core language and the reference evaluator
+    (`hfold`: wherever `P` evaluates to a Boolean, `f` evaluates to the same Boolean — C04's
+    `fold_preserves_where` at `Ctx.off`).  If `P` is in the core language and the reference evaluator
     finds it evaluable on every stored pair, then in either iteration mode, for every batch size
     ≥ 1: the statement succeeds, its rows are exactly the stored pairs on which the REFERENCE says
     `P` is true — every such pair, no other, with its stored value, in store order — and the
